@@ -115,9 +115,15 @@ Definition spec_val_ok (v : value) : Prop :=
   | _ => False
   end.
 
+Lemma spec_compare_ok o x y v : spec_compare o x y = Ok v -> spec_val_ok v.
+Proof. destruct o; cbn [spec_compare]; intro H; inversion H; exact I. Qed.
+
 Lemma spec_binop_ok o a b v : spec_binop o a b = Ok v -> spec_val_ok v.
 Proof.
   destruct o; cbn [spec_binop]; intro H;
+    try (match type of H with context [spec_num] =>
+           destruct (spec_num a); try discriminate; destruct (spec_num b); try discriminate;
+           eapply spec_compare_ok; exact H end);
     try (match type of H with context [spec_member] =>
            destruct b; try discriminate; destruct (spec_member _ _); inversion H; exact I end);
     try (destruct (spec_equal a b); inversion H; exact I);
@@ -266,3 +272,23 @@ Proof.
     cbn [spec_binop]. rewrite Hm. reflexivity.
   - apply spec_member_true. exact Hm.
 Qed.
+
+(* ---- strings that spell whole numbers compare as those numbers ---- *)
+Lemma C08_numeral_strings_proof : forall (env : spec_env) (a b : expr) (va vb : value) (x y : Z),
+  spec_eval env a = Ok va -> spec_eval env b = Ok vb -> spec_num va = Some x -> spec_num vb = Some y ->
+  spec_eval env (EBin BLt a b) = Ok (VBool (x <? y)%Z) /\ spec_eval env (EBin BLe a b) = Ok (VBool (x <=? y)%Z) /\
+  spec_eval env (EBin BGt a b) = Ok (VBool (y <? x)%Z) /\ spec_eval env (EBin BGe a b) = Ok (VBool (y <=? x)%Z).
+Proof.
+  intros env a b va vb x y Ha Hb Hx Hy.
+  repeat split.
+  - rewrite (spec_eval_bin env BLt a b va vb) by (congruence || assumption). cbn [spec_binop]. rewrite Hx, Hy. reflexivity.
+  - rewrite (spec_eval_bin env BLe a b va vb) by (congruence || assumption). cbn [spec_binop]. rewrite Hx, Hy. reflexivity.
+  - rewrite (spec_eval_bin env BGt a b va vb) by (congruence || assumption). cbn [spec_binop]. rewrite Hx, Hy. reflexivity.
+  - rewrite (spec_eval_bin env BGe a b va vb) by (congruence || assumption). cbn [spec_binop]. rewrite Hx, Hy. reflexivity.
+Qed.
+
+Example spec_numeral_examples :
+  spec_numeral b#"10" = Some 10%Z /\ spec_numeral b#"9" = Some 9%Z /\ spec_numeral b#"-5" = Some (-5)%Z /\ spec_numeral b#"0" = Some 0%Z /\
+  spec_numeral b#"007" = None /\ spec_numeral b#"-0" = None /\ spec_numeral b#"1.0" = None /\ spec_numeral b#"" = None /\ spec_numeral b#"-" = None /\
+  spec_numeral b#"abc" = None /\ spec_numeral b#"1234567890123456" = None.
+Proof. repeat split; reflexivity. Qed.
